@@ -10,6 +10,7 @@ import (
 	"time"
 
 	"nhooyr.io/websocket"
+	"verif/harness/attach"
 	"verif/harness/fw"
 	"verif/harness/wire"
 	"verif/harness/xport"
@@ -255,7 +256,27 @@ type sentMsg struct {
 
 func c02Run(r *fw.R, d c02Desc, tier string) {
 	rng := fw.NewRand(d.Seed)
-	c, _, peerEnd, err := libConn(d.Role, d.Params, d.Threshold, xport.Plan{Seed: d.Seed, WriteMax: d.WriteMax}, xport.Plan{})
+	var c *websocket.Conn
+	var peerEnd *xport.End
+	var err error
+	if d.Role == RoleServer && !d.Params.Deflate && d.Seed%3 == 0 {
+		// a compression-enabled server whose client's only offer has to be declined: nothing was negotiated, so
+		// nothing may be compressed
+		offers := []string{"permessage-deflate; client_max_window_bits=16", "permessage-deflate; server_max_window_bits=10", "permessage-deflate; client_max_window_bits=", "permessage-deflate; mystery_parameter", "x-webkit-deflate-frame", "permessage-deflate; server_max_window_bits=8; client_no_context_takeover"}
+		mode := []websocket.CompressionMode{websocket.CompressionContextTakeover, websocket.CompressionNoContextTakeover}[d.Seed/3%2]
+		var libEnd *xport.End
+		libEnd, peerEnd = xport.Pair(xport.Plan{Seed: d.Seed, WriteMax: d.WriteMax}, xport.Plan{})
+		var rec *attach.Recorder
+		c, rec, err = attach.Server(libEnd, attach.ServerOpts{Threshold: 1, Mode: &mode, RawExt: offers[d.Seed/6%uint64(len(offers))]})
+		if err == nil && rec.Header().Get("Sec-WebSocket-Extensions") != "" {
+			r.Violate("C02/attach-failed", fmt.Sprintf("the offer %q was answered with %q", offers[d.Seed/6%uint64(len(offers))], rec.Header().Get("Sec-WebSocket-Extensions")), "")
+			return
+		}
+		r.Count("servers_that_declined_the_only_offer", 1)
+		r.Key("server/declined-offer/mode=%d", mode)
+	} else {
+		c, _, peerEnd, err = libConn(d.Role, d.Params, d.Threshold, xport.Plan{Seed: d.Seed, WriteMax: d.WriteMax}, xport.Plan{})
+	}
 	if err != nil {
 		r.Violate("C02/attach-failed", err.Error(), "")
 		return
